@@ -104,6 +104,8 @@ def explore(run, focus, n_random, hosts=("plain",), malformed_rate=0.0, exhausti
             ops = [(0, rng.randrange(1, c.n + 1))]
         elif focus == "C22":
             ops = gen_ops(rng, c, rng.randint(2, nops), q_rate=0.6)
+        elif focus == "C23":
+            ops = gen_ops(rng, c, rng.randint(1, nops), q_rate=0.0)
         else:
             ops = gen_ops(rng, c, rng.randint(1, nops), q_rate=0.15)
         cases.append((c, ops, "random", getattr(c, "malformed", None)))
@@ -126,6 +128,10 @@ def explore(run, focus, n_random, hosts=("plain",), malformed_rate=0.0, exhausti
             run.disagree("hsm full call trace", cj, model, real)
         # ---- oracle ----
         interesting = oracle(run, focus, c, ops, real, spec, cj, mal)
+        if focus in ("C22", "C23") and mal is None:
+            interesting = name_oracle(run, focus, c, ops, real, hsm, cj, host, spied) or interesting
+        if focus == "C22" and mal is None:
+            purity_oracle(run, c, ops, real, cj, host, spied)
         run.case(cj, nontrivial=interesting)
 
 
@@ -256,6 +262,56 @@ def oracle(run, focus, c, ops, real, spec, cj, mal):
                             cj_upto(cj, idx))
         cur = r["state"]
     return interesting
+
+
+def name_oracle(run, focus, c, ops, real, hsm, cj, host, spied):
+    """state_name / state_fn / current_state() after every op (C23) and after queries (C22)"""
+    names = getattr(hsm, "_vp_names", [])
+    hit = False
+    for idx, (o, a) in enumerate(ops):
+        if idx >= len(names) or idx >= len(real):
+            break
+        r = parse(real[idx])
+        if r["kind"] != "ok":
+            break
+        cur = int(r["state"])
+        want = "s%d" % cur
+        nm = names[idx]
+        is_query = o in (2, 3)
+        if (focus == "C22") != is_query:
+            continue
+        hit = True
+        run.count("name check host=%s spied=%s %s" % (host, spied, "query" if is_query else "step"))
+        site = ("is_in" if o == 2 else "child_state") if is_query else ("start_at" if o == 0 else "dispatch")
+        if nm["state_name"] != want:
+            run.violate("%s/state_name/%s/%s" % (focus, site, "spied" if spied else "unspied"),
+                        "%s host, %s chart: after %s(%d) in state %s state_name is %r" % (
+                            host, "spied" if spied else "un-spied", site, a, want, nm["state_name"]), cj_upto(cj, idx))
+        if nm["state_fn"] != cur:
+            run.violate("%s/state_fn/%s" % (focus, site),
+                        "after %s(%d) state_fn is the handler of state %s, current state is %s" % (site, a, nm["state_fn"], cur),
+                        cj_upto(cj, idx))
+        if nm["current_state"] is not None and nm["current_state"] != want and focus == "C23":
+            run.violate("C23/current_state", "current_state() returned %r in state %s" % (nm["current_state"], want),
+                        cj_upto(cj, idx))
+    return hit
+
+
+def purity_oracle(run, c, ops, real, cj, host, spied):
+    """the same script without its queries must give the same steps"""
+    if not any(o in (2, 3) for o, _ in ops):
+        return
+    keep = [i for i, (o, _) in enumerate(ops) if o in (0, 1)]
+    # only meaningful while the original run did not stop early
+    keep = [i for i in keep if i < len(real) and parse(real[i])["kind"] == "ok"]
+    ops2 = [ops[i] for i in keep]
+    real2, _, _ = charts.run_real(c, ops2, host=host, spied=spied)
+    for j, i in enumerate(keep):
+        if j >= len(real2) or real2[j] != real[i]:
+            run.violate("C22/later-behaviour", "step %s behaves differently when the preceding is_in/child_state queries are removed: %s vs %s"
+                        % (ops[i], real[i], real2[j] if j < len(real2) else None), cj_upto(cj, i))
+            return
+    run.count("purity replay")
 
 
 def cj_upto(cj, idx):
